@@ -24,7 +24,7 @@ EXPRS = {
     'R^x': lambda R, x: R ^ x, 'R|x': lambda R, x: R | x, 'R&x': lambda R, x: R & x, 'hodge(R*x)': lambda R, x: (R * x).hodge(),
     'x@R': lambda R, x: x @ R, 'R*x-x*R+2*x': lambda R, x: R * x - x * R + 2 * x, 'x.lc(R)': lambda R, x: x.lc(R),
     '~(x*R)': lambda R, x: ~(x * R), 'R.acp(x)-x': lambda R, x: R.acp(x) - x,
-    '(R*x)/2': lambda R, x: (R * x) / 2, 'x/4+R*x': lambda R, x: x / 4 + R * x, '(x|R)*R': lambda R, x: (x | R) * R, 'R*(x^R)': lambda R, x: R * (x ^ R), 'R.sw(x)+R.cp(x)': lambda R, x: R.sw(x) + R.cp(x),
+    'asfullmv(R*x)': lambda R, x: (R * x).asfullmv(), '(R*x)/2': lambda R, x: (R * x) / 2, 'x/4+R*x': lambda R, x: x / 4 + R * x, '(x|R)*R': lambda R, x: (x | R) * R, 'R*(x^R)': lambda R, x: R * (x ^ R), 'R.sw(x)+R.cp(x)': lambda R, x: R.sw(x) + R.cp(x),
 }
 MODES = ['sym', 'num', 'num-int', 'arr', 'reslike', 'reslike-num']
 
@@ -45,7 +45,8 @@ def plan(tier, seed):
         cfgs += [gen.random_custom_cfg(rng, rng.choice((2, 3, 3, 4))) for _ in range(60)] + gen.NAMED[:2]
         cfgs += [{'p': 2, 'q': 1, 'r': 0, 'start_index': 0}, {'p': 1, 'q': 1, 'r': 1, 'start_index': 2}]
         ecfgs = [{'p': 3, 'q': 0, 'r': 0}, {'p': 2, 'q': 0, 'r': 1}, {'p': 1, 'q': 1, 'r': 1}, {'signature': [1, -1]}, {'named': '2DPGA'},
-                 {'p': 3, 'q': 0, 'r': 1}, {'signature': [-1, 1, 0]}, gen.random_custom_cfg(rng, 3)]
+                 {'p': 3, 'q': 0, 'r': 1}, {'signature': [-1, 1, 0]}, gen.random_custom_cfg(rng, 3),
+                 {'p': 2, 'q': 0, 'r': 1, 'opts': {'graded': True}}, {'p': 3, 'q': 0, 'r': 0, 'opts': {'graded': True}}]
         per = 8
     else:
         cfgs = gen.sig_orderings(1, 5) + gen.pqr_all(5, 5)
@@ -53,6 +54,7 @@ def plan(tier, seed):
         for b in gen.all_custom_bases(2, 1) + gen.all_custom_bases(2, 0):
             cfgs.append({'signature': [1, -1], 'basis': b})
         ecfgs = gen.sig_orderings(2, 3) + gen.NAMED[:2] + [gen.random_custom_cfg(rng, 3) for _ in range(10)] + gen.pqr_all(4, 4)[::3]
+        ecfgs += [dict(c, opts={'graded': True}) for c in gen.pqr_all(2, 3)[::2]]
         per = 120
     U = [{'kind': 'asmatrix', 'cfg': c} for c in cfgs]
     for c in ecfgs:
@@ -195,8 +197,12 @@ def asmatrix_unit(ctx, unit):
             # multiplicativity on the multivectors themselves, in exact arithmetic
             try:
                 A_, B_, P_ = (np.array(m, dtype=object) for m in (Mx, My, Mp))
-                if P_.shape == ():
-                    P_ = np.zeros(A_.shape, dtype=object) + P_      # the empty product: asmatrix() of the empty multivector is the number 0
+                if P_.shape != A_.shape:
+                    # asmatrix() of a product that stores no blade: the zero element maps to the zero MATRIX (linearity, and
+                    # frommatrix has to be able to invert it), not to a bare number
+                    ctx.violation('asmatrix() of the zero multivector is not a matrix', cid + ['zero-element'], config=cfg, keys=[list(kx), list(ky)],
+                                  got=repr(Mp)[:80], expected_shape=list(A_.shape), mechanism_hint=hint)
+                    P_ = np.zeros(A_.shape, dtype=object) + P_
                 native = np.asarray(Mx) @ np.asarray(My) if kind == 'int' else None     # the product a user forms from the returned matrices
                 if native is not None and not np.array_equal(np.array(native, dtype=object), P_):
                     ctx.violation('asmatrix(x) @ asmatrix(y) formed from the returned matrices differs from asmatrix(x*y)', cid + ['native-product'],
@@ -258,10 +264,19 @@ def expr_unit(ctx, unit):
         mode = rng.choice(MODES)
         xk = tuple(rng.sample(list(canon), min(len(canon), rng.randint(1, 3))))
         rk = gen.random_subset(rng, canon, 3, 1) if rng.random() < 0.6 else tuple(k for k in canon if bin(k).count('1') % 2 == 0)[:4]
+        if cfg.get('opts', {}).get('graded'):
+            # graded mode: operands hold complete grades
+            xk = tuple(alg.indices_for_grades[(rng.randint(0, alg.d),)])
+            rk = tuple(alg.indices_for_grades[tuple(sorted(rng.sample(range(alg.d + 1), rng.randint(1, 2))))])
+            if len(xk) > 4 or len(rk) > 6:
+                continue
+            ctx.count('graded_mode_expr_cases')
         cid = [name, 'expr', unit['expr'], list(rk), list(xk), mode]
         if not ctx.want(cid):
             continue
-        x = alg.multivector(name='x', keys=xk)
+        # the unknown may carry any name, also one of the letters kingdon uses for its own stand-in symbols
+        xname = 'x' if rng.random() < 0.7 else rng.choice(('A', 'B'))
+        x = alg.multivector(name=xname, keys=xk)
         rvals = [Fr(gen.small_int(rng, -3, 3, nonzero=True), rng.choice((1, 2))) for _ in rk]
         if mode in ('sym', 'reslike'):
             R = alg.multivector(name='R', keys=rk)
@@ -283,11 +298,22 @@ def expr_unit(ctx, unit):
         kw = {}
         if mode.startswith('reslike'):
             lk = tuple(rng.sample(list(canon), min(len(canon), 2)))
+            if cfg.get('opts', {}).get('graded'):
+                lk = tuple(alg.indices_for_grades[(rng.randint(0, alg.d),)])       # graded mode: a complete grade
             kw['res_like'] = gen.mv_from(alg, lk, [0] * len(lk))
         st, out = ctx.guarded(60, lambda: expr_as_matrix(f, R, x, **kw))
         if st != 'ok':
             if st == 'exc':
                 ctx.note_raised(out, 'expr_as_matrix-' + mode)
+                # the expression itself evaluates on these inputs: then "returns A and y with y = f(.., x)" has nothing to offer
+                st_f, y_f = ctx.guarded(60, lambda: f(R, x))
+                if st_f == 'ok':
+                    ctx.count('expr_cases')
+                    ctx.count('expr_mode_' + mode)
+                    ctx.case(cid)
+                    ctx.violation('expr_as_matrix raises although the expression evaluates on the same inputs', cid + ['raises'], config=cfg, expression=unit['expr'],
+                                  mode=mode, R_keys=list(rk), x_keys=list(xk), x_name=xname, error=f'{type(out).__name__}: {str(out)[:160]}',
+                                  res_like_keys=list(kw['res_like'].keys()) if kw else None)
             continue
         A, y = out
         xvals = [Fr(rng.randint(-9, 9), rng.choice((1, 2, 3))) for _ in xk]
